@@ -30,16 +30,22 @@ func checkDefs() map[string]*CheckDef {
 		{
 			ID: "C12", Title: "Ordering contract",
 			Runs: func(tier string) []RunSpec {
-				return []RunSpec{
-					{Name: "sort", Pkg: ioc + "/util/framework_helper", Entry: "VerifC12Sort", Params: map[string]int{"N": tierPick(tier, 5, 6)}, MustCover: []string{"sorted"}},
+				rs := []RunSpec{
+					{Name: "sort", Pkg: ioc + "/util/framework_helper", Entry: "VerifC12Sort", Params: map[string]int{"N": 5}, MustCover: []string{"sorted", "marker-only participant", "pointer of a type whose value is unordered"}},
 					{Name: "processors-call-site", Pkg: ioc + "/container/factory", Entry: "VerifC12Processors", Params: map[string]int{"K": tierPick(tier, 3, 4), "DECORATE": 1}, MustCover: []string{"callbacks checked", "eager processor", "a processor component decorated by an earlier processor"}},
 					{Name: "runners-call-site", Pkg: ioc + "/app", Entry: "VerifC13", Params: map[string]int{"N": 3, "FAULTS": 0}, MustCover: []string{"all runners ok"}},
 					{Name: "loaders-call-site", Pkg: ioc + "/configure", Entry: "VerifC15Load", Params: map[string]int{"N": 3}, MustCover: []string{"several loaders"}},
 					{Name: "many-participants", Pkg: ioc + "/configure", Entry: "VerifC15ManyLoaders", MustCover: []string{"many loaders"}},
 				}
+				if tier == "thorough" {
+					// six participants over the four basic classes (all six classes at N=6 is ~400 k paths / 20 min and
+					// close to the solver's per-query time limit on a loaded machine)
+					rs = append(rs, RunSpec{Name: "sort-6", Pkg: ioc + "/util/framework_helper", Entry: "VerifC12Sort", Params: map[string]int{"N": 6, "CLASSES": 4}, MustCover: []string{"sorted", "marker-only participant"}})
+				}
+				return rs
 			},
 			LevelText: "Bounded symbolic model checking of the real SortOrderedComponents/orderedComponentComparator and the real stdlib sort.Slice SSA: for every multiset of up to N participants of the three classes with unconstrained 64-bit Order() values and every input order, z3 shows the output is a permutation, classes are grouped priority<ordered<plain and Order never decreases inside the first two groups.",
-			LevelNote: "Bound: N participants (quick 5, thorough 6); beyond 12 elements sort.Slice leaves insertion sort and the claim rests on its contract. Trusted: go/ssa, the engine's SSA semantics (validated by native replay of sampled paths), z3.",
+			LevelNote: "Bound: N=5 participants over six classes (priority-ordered, ordered, unordered, marker-only, value and pointer of a type whose Order() has a pointer receiver), thorough additionally N=6 over the first four; the sorter is stdlib sort.SliceStable executed from SSA (insertion sort blocks + symMerge); 13/16/30 participants with concrete Orders in the run many-participants. Trusted: go/ssa, the engine's SSA semantics (validated by native replay of sampled paths), z3.",
 			Technique: "bounded symbolic execution of go/ssa + z3 (QF_BV), native replay of counterexamples",
 			DesignRef: "DESIGN.md §3 C12",
 		},
